@@ -29,7 +29,7 @@ import Driver.Ops
 import Lungo.Model.Conc
 import Std.Data.HashSet
 open Lean Lungo.Conc
-namespace Driver
+namespace Driver.Conc
 
 def natOf (j : Json) : Except String Nat :=
   match j.getNat? with
@@ -41,13 +41,13 @@ def boolField (j : Json) (k : String) (dflt : Bool) : Bool :=
   | .ok (.bool b) => b
   | _ => dflt
 
-def natField (j : Json) (k : String) : Except String Nat :=
+def concNatField (j : Json) (k : String) : Except String Nat :=
   match j.getObjVal? k with
   | .ok v => natOf v
   | .error _ => throw s!"missing field {k}"
 
 def natFieldD (j : Json) (k : String) (d : Nat) : Nat :=
-  match natField j k with
+  match concNatField j k with
   | .ok n => n
   | .error _ => d
 
@@ -65,10 +65,10 @@ def callOfJson (j : Json) : Except String Call := do
   | "begin" => pure (.begin (boolField j "lock" true))
   | "commit" => pure .commit
   | "abort" => pure .abort
-  | "sessStart" => do pure (.sessStart (← natField j "sid"))
-  | "sessCommit" => do pure (.sessCommit (← natField j "sid"))
-  | "sessAbort" => do pure (.sessAbort (← natField j "sid"))
-  | "sessEnd" => do pure (.sessEnd (← natField j "sid"))
+  | "sessStart" => do pure (.sessStart (← concNatField j "sid"))
+  | "sessCommit" => do pure (.sessCommit (← concNatField j "sid"))
+  | "sessAbort" => do pure (.sessAbort (← concNatField j "sid"))
+  | "sessEnd" => do pure (.sessEnd (← concNatField j "sid"))
   | "close" => pure .close
   | "crit" =>
     match j.getObjVal? "kind" with
@@ -160,7 +160,7 @@ def popScript (scripts : List (List Call)) (a : ActorId) (c : Call) : Option (Li
   | _ => none
 
 def opSchedRun : Op := fun j => do
-  let n ← natField j "n"
+  let n ← concNatField j "n"
   let sched ← parseSchedule j
   let scripts ← parseScripts j
   let rec go (s : State) (scr : Option (List (List Call))) (rest : List (ActorId × Choice)) (acc : Array Json) :
@@ -186,7 +186,7 @@ def opSchedRun : Op := fun j => do
 def nonCallChoices : List Choice := simpleChoices.map (·.2)
 
 def opSchedEnabled : Op := fun j => do
-  let n ← natField j "n"
+  let n ← concNatField j "n"
   let sched ← parseSchedule j
   let s := sched.foldl (fun s (p : ActorId × Choice) => match step s p.1 p.2 with | some s' => s' | none => s) (init n)
   let en := (List.range (n + 1)).map fun (a : Nat) =>
@@ -265,7 +265,7 @@ partial def explore (inv : String) (faults : Bool) (depth maxStates : Nat)
         | none => st) st) st
 
 def opSchedExplore : Op := fun j => do
-  let n ← natField j "n"
+  let n ← concNatField j "n"
   let scripts ← parseScripts j
   let scr := scripts.getD []
   let depth := natFieldD j "depth" 60
@@ -284,4 +284,4 @@ def opSchedExplore : Op := fun j => do
 def opsConc : List (String × Op) :=
   [("sched.run", opSchedRun), ("sched.enabled", opSchedEnabled), ("sched.explore", opSchedExplore)]
 
-end Driver
+end Driver.Conc
